@@ -55,8 +55,8 @@ mut('C03_last_slot_not_freed', CONT,
     "            self._change_slot_states(task['slots'], rpc.FREE)",
     "            self._change_slot_states(task['slots'][:-1] or task['slots'], rpc.FREE)")
 mut('C03_nodelist_release_skips_last', RC,
-    "        for slot in slots:\n\n            node = self.nodes[slot.node_index]\n            node.deallocate_slot(slot)\n\n        if self.__last_failed_rr__:",
-    "        for slot in slots[:-1] or slots:\n\n            node = self.nodes[slot.node_index]\n            node.deallocate_slot(slot)\n\n        if self.__last_failed_rr__:")
+    "        for slot in slots:\n\n            node = self._get_node(slot.node_index)\n            node.deallocate_slot(slot)\n\n        if self.__last_failed_rr__:",
+    "        for slot in slots[:-1] or slots:\n\n            node = self._get_node(slot.node_index)\n            node.deallocate_slot(slot)\n\n        if self.__last_failed_rr__:")
 mut('C03_nodelist_mem_not_returned', RC,
     "            self.lfs += slot.lfs\n            self.mem += slot.mem",
     "            self.lfs += slot.lfs")
